@@ -149,12 +149,68 @@ Definition covers_b (a : api) (c : cache) (r : list op) : bool :=
   forallb (fun k => existsb (delivers_claim k) r) (keys (a_claims a) ++ keys (c2p c)) &&
   forallb (fun k => existsb (delivers_pod k) r) (keys (binds c)).
 
+(* ---- NodePoolState: correspondence and oracle ---- *)
+Definition sets_eqb (x y : list string * list string) : bool := set_eqb (fst x) (fst y) && set_eqb (snd x) (snd y).
+Definition nps_eqb_parts (o m : npstate) : list (string * bool) :=
+  [ ("nodepoolstate-sets", amap_eqb sets_eqb (ps_sets o) (ps_sets m));
+    ("nodepoolstate-claim-map", amap_eqb String.eqb (ps_map o) (ps_map m)) ].
+
+Fixpoint nodup_b (l : list string) : bool :=
+  match l with [] => true | x :: t => negb (mem x t) && nodup_b t end.
+
+Definition nps_match_b (a : api) (w : view) (st : npstate) : bool :=
+  forallb (fun pool => (pool =s "") ||
+     (nodup_b (fst (ps_get pool st)) && nodup_b (snd (ps_get pool st)) &&
+      forallb (fun k =>
+         Bool.eqb (mem k (fst (ps_get pool st))) (match spec_member a w pool k with Some false => true | _ => false end) &&
+         Bool.eqb (mem k (snd (ps_get pool st))) (match spec_member a w pool k with Some true => true | _ => false end))
+        (fst (ps_get pool st) ++ snd (ps_get pool st) ++ keys (a_claims a))))
+    (keys (ps_sets st) ++ api_pools a).
+
+(* ---- the weaker quiescence notion: every key delivered at least once after its last change ---- *)
+Definition okey (o : op) : option (string * bool) :=     (* tagged key; true = API write, false = delivery *)
+  match o with
+  | SetNode n => Some ("N/" ++ n_name n, true) | DelNode k => Some ("N/" ++ k, true)
+  | SetClaim cl => Some ("C/" ++ c_name cl, true) | DelClaim k => Some ("C/" ++ k, true)
+  | SetPod p => Some ("P/" ++ p_key p, true) | DelPod k => Some ("P/" ++ k, true)
+  | DeliverNode k => Some ("N/" ++ k, false) | DeliverClaim k => Some ("C/" ++ k, false)
+  | DeliverPod k => Some ("P/" ++ k, false)
+  | _ => None
+  end.
+Definition dirty_step (d : list string) (o : op) : list string :=
+  match okey o with Some (k, true) => sins k d | Some (k, false) => sdel k d | None => d end.
+
+(* the one shape a pod delivery does not settle by itself: the pod was re-written under the same name on the
+   same node and the entry the cache holds for it is a daemonset entry while the pod no longer is one, or
+   carries a disruption cost while the pod now is a daemonset pod, or lists a volume the pod no longer has
+   (updateForPod only adds to daemonSetRequests / podDisruptionCosts / volumes for such a pod) *)
+Definition stale_rewrite (a : api) (c : cache) (o : op) : bool :=
+  match o with
+  | DeliverPod key =>
+      match aget key (a_pods a) with
+      | Some p =>
+          if p_term p || (p_node p =s "") then false else
+          match aget (sget (p_node p) (n2p c)) (nodes c) with
+          | Some s => match aget key (sn_pods s) with
+                      | Some e => (negb (p_ds p) && has key (sn_dsr s)) || (p_ds p && has key (sn_costs s)) ||
+                                  negb (forallb (fun v => mem v (p_vols p)) (e_vols e))
+                      | None => false
+                      end
+          | None => false
+          end
+      | None => false
+      end
+  | _ => false
+  end.
+
 (* ---- cases ---- *)
 Inductive item :=
 | IOp (o : op)
 | IClose (r : list op)                               (* the closing round *)
-| IObs (final : bool) (w : view) (accs : amap acc)   (* the implementation's cache at this point; [final]: the
-                                                        harness believes the theorem's premises hold here *)
+| IObs (kind : nat) (belief : bool) (w : view) (accs : amap acc) (n : npstate)
+    (* the implementation's cache and NodePoolState at this point.  kind 0: mid-history; 1: every key has been
+       delivered after its last change; 2: after the closing round.  [belief]: the harness (Go, on the real
+       cache) finds the premises of the respective theorem true *)
 | IPanic.                                            (* the implementation panicked in the previous op *)
 
 Definition case := list item.
@@ -164,27 +220,50 @@ Definition failing (pre : string) (parts : list (string * bool)) : list string :
 
 Definition accs_of (w : view) : amap acc := map (fun kv => (fst kv, acc_of (snd kv))) (vw_nodes w).
 
-(* [ok]: hist_ok_b of the ops so far; [hyp]: all premises of quiescent_equals_fresh_decidable held when the
-   closing round started *)
-Fixpoint check_items (s : api * cache) (ok hyp : bool) (its : list item) : list string :=
-  match its with
-  | [] => []
-  | IOp o :: t => check_items (step s o) (ok && op_ok_b (fst s) (snd s) o) hyp t
-  | IClose r :: t =>
-      check_items (fold_left step r s) ok
-        (ok && pods_settled_b (fst s) && forallb is_deliver_b r && covers_b (fst s) (snd s) r) t
-  | IPanic :: t => if panicked (snd s) then [] else ["corr:panic"]
-  | IObs final w accs :: t =>
-      let m := view_of (snd s) in
-      (if panicked (snd s) then ["corr:model-panic"] else []) ++
-      failing "corr:" (view_eqb_parts w m) ++
-      failing "corr:accessors-" [("sums", amap_eqb acc_eqb accs (accs_of m))] ++
-      (if Bool.eqb final hyp then [] else ["corr:premises-evaluated-differently"]) ++
-      (if hyp then failing "oracle:" (fresh_eqb_parts (fst s) w) else []) ++
-      check_items s ok hyp t
+Record cstate := mkCS {
+  cs_ok : bool;            (* hist_ok_b of the ops so far *)
+  cs_hyp : bool;           (* the premises of quiescent_equals_fresh_decidable held when the closing round started *)
+  cs_dirty : list string;  (* keys written since their last delivery *)
+  cs_nostale : bool }.     (* no pod delivery of the shape [stale_rewrite] so far *)
+
+(* the nodepool label of a NodeClaim name NodePoolState still maps does not change *)
+Definition label_ok_b (st : npstate) (o : op) : bool :=
+  match o with
+  | SetClaim cl => match aget (c_name cl) (ps_map st) with Some np => np =s c_pool cl | None => true end
+  | _ => true
   end.
 
-Definition check_case (c : case) : list string := nodup string_dec (check_items (api0, cache0) true false c).
+Definition cs_op (s : api * cache * npstate) (k : cstate) (o : op) : cstate :=
+  let '(a, c, st) := s in
+  mkCS (cs_ok k && op_ok_b a c o && label_ok_b st o) (cs_hyp k) (dirty_step (cs_dirty k) o)
+       (cs_nostale k && negb (stale_rewrite (api_step a o) c o)).
+
+Fixpoint check_items (s : api * cache * npstate) (k : cstate) (its : list item) : list string :=
+  let '(a, c, st) := s in
+  match its with
+  | [] => []
+  | IOp o :: t => check_items (step3 s o) (cs_op s k o) t
+  | IClose r :: t =>
+      let hyp := cs_ok k && pods_settled_b a && forallb is_deliver_b r && covers_b a c r in
+      check_items (fold_left step3 r s) (mkCS (cs_ok k) hyp (cs_dirty k) (cs_nostale k)) t
+  | IPanic :: t => if panicked c then [] else ["corr:panic"]
+  | IObs kind belief w accs n :: t =>
+      let m := view_of c in
+      let weak := cs_ok k && cs_nostale k && pods_settled_b a &&
+                  match cs_dirty k with [] => true | _ => false end in
+      let applies := match kind with 1%nat => weak | 2%nat => cs_hyp k | _ => false end in
+      (if panicked c then ["corr:model-panic"] else []) ++
+      failing "corr:" (view_eqb_parts w m) ++
+      failing "corr:accessors-" [("sums", amap_eqb acc_eqb accs (accs_of m))] ++
+      failing "corr:" (nps_eqb_parts n st) ++
+      (if Bool.eqb belief applies then [] else ["corr:premises-evaluated-differently"]) ++
+      (if applies then failing (if Nat.eqb kind 1 then "oracle:once-delivered:" else "oracle:")
+                         (fresh_eqb_parts a w ++ [("nodepoolstate", nps_match_b a w n)]) else []) ++
+      check_items s k t
+  end.
+
+Definition check_case (c : case) : list string :=
+  nodup string_dec (check_items (api0, cache0, nps0) (mkCS true false [] true) c).
 
 Definition check_all (cs : list (Z * case)) : list (Z * string) :=
   flat_map (fun ic => map (fun t => (fst ic, t)) (check_case (snd ic))) cs.
